@@ -64,6 +64,29 @@ def run(p):
             back = C.llh2xyz(*q, ell)
             d = math.dist(back, (x, y, z))
             p.check(d <= 2e-5, 'xyz2llh-roundtrip', 'roundtrip_direct', [x, y, z, ell.semimaj, ell.inversef], d, '<= 2e-5 m')
+    # Cartesian inputs a fraction of a millimetre off the equatorial plane, the Greenwich plane or the y = 0 / x = 0
+    # planes (all octants): latitudes / longitudes of 1e-12 .. 1e-8 deg must survive the conversion
+    for _ in range(p.n(400, 8000)):
+        ell = gens.ellipsoid(rng)
+        r = ell.semimaj + (rng.uniform(-1e4, 4e7) if rng.random() < 0.3 else rng.uniform(-1e4, 1e4))
+        tiny = rng.choice([-1, 1]) * 10 ** rng.uniform(-6, -2)
+        th = rng.uniform(-math.pi, math.pi)
+        which = rng.choice(['z', 'y', 'x', 'zy'])
+        if which == 'z':
+            x, y, z = r * math.cos(th), r * math.sin(th), tiny
+        elif which == 'y':
+            x, y, z = rng.choice([-1, 1]) * r * abs(math.cos(th)), tiny, r * math.sin(th) * 0.9
+        elif which == 'x':
+            x, y, z = tiny, rng.choice([-1, 1]) * r * abs(math.cos(th)), r * math.sin(th) * 0.9
+        else:
+            x, y, z = rng.choice([-1, 1]) * r, tiny, rng.choice([-1, 1]) * 10 ** rng.uniform(-6, -2)
+        p.case('roundtrip_near_plane', [x, y, z])
+        ok, q = p.guarded('xyz2llh-raises', 'roundtrip_near_plane', [x, y, z], lambda: C.xyz2llh(x, y, z, ell))
+        if ok:
+            back = C.llh2xyz(*q, ell)
+            d = math.dist(back, (x, y, z))
+            p.check(d <= 2e-5, 'xyz2llh-roundtrip:near-plane', 'roundtrip_near_plane', [x, y, z, ell.semimaj, ell.inversef], d,
+                    '<= 2e-5 m', f'xyz2llh({x!r}, {y!r}, {z!r}, Ellipsoid({ell.semimaj!r}, {ell.inversef!r}))')
     # points close to the rotation axis (off it): the height must not be computed by dividing vanishing quantities
     # (defect repaired by 37d358f: a point 1 m from the axis converted back 4.5 mm away)
     for _ in range(p.n(400, 8000)):
